@@ -64,7 +64,7 @@ fn prepare(r: &Runner, actors: &[Value]) -> Prepared {
             let nodes: Vec<Node> = serde_json::from_value(t.clone()).expect("actor tree");
             let dir = r.work.join(format!("src_{name}"));
             tree::materialize(&dir, &nodes).expect("materialize actor tree");
-            let proj = tree::project(&dir).unwrap();
+            let proj = tree::project_source(&dir).unwrap();
             srcs.push((dir, proj, true));
         } else {
             srcs.push((r.src.clone(), r.src_tree.clone(), false));
